@@ -8,6 +8,7 @@ markup: proved by TLC for all class strings up to the bound) and the complete en
 presence subsets x character-class assignments; the oracle is the round trip of the real classes."""
 import concurrent.futures
 import math
+import re
 
 import codec_common as cc
 import vf
@@ -54,6 +55,11 @@ def run(chk, replay=None):
                       "nfixed": 2 if quick else 0}
                      for i in range(len(seeds))]
             jobs += _obj_jobs(reg["objects"], plans, [0, 7] if quick else [0, 1, 7])
+            # default-constructed and fully set objects, getters logged (determinism across heap fill patterns)
+            k = len(plans[0]["steps"]) - 2
+            for t in reg["objects"]:
+                for vals in ([""] * k, ["Plain"] * k):
+                    jobs.append({"k": "obj", "id": f"d{len(jobs)}", "cls": t["name"], "map": 0, "vals": vals, "variant": 0, "getters": True})
         chk.cov["generation"] = gen
         vf.write_ndjson(chk.path("jobs.ndjson"), jobs)
         paths, lines, crashes = cc.run_jobs(chk, "c01", jobs, seeds_path, alarm=300)
@@ -100,7 +106,8 @@ def run(chk, replay=None):
                  "their bounds. non-trivial = object case with at least one field differing from the default object, or one "
                  "substitution at a confirmed slot"),
     })
-    for o in (objs[:1] + objs[len(objs) // 2: len(objs) // 2 + 2]):
+    rich = [o for o in objs if o.get("nset", 0) >= 2]
+    for o in (rich[:1] + rich[len(rich) // 2: len(rich) // 2 + 2]):
         chk.sample({"class": o["cls"], "plan": o["vals"], "map": o["map"], "variant": o["variant"], "fields_set": o["nset"], "xml": o.get("x1", "")[:300]})
     for o in [x for x in subs if x["slots"] > 0][:2]:
         chk.sample({"seed": o["seed"], "free_text_slots": o.get("slotNames", [])[:6], "substitutions": o["tried"]})
@@ -121,7 +128,8 @@ def run(chk, replay=None):
                     f" (plan {o['vals']}, map {o['map']}, variant {o['variant']}): before={cc.short(b.get('want', ''))} after={cc.short(b.get('got', ''))} "
                     f"xml={cc.short(o.get('x1', ''), 300)}")
         elif o["e"] == "Subst":
-            sig = f"C01:{b['k']}:{b['c']}:{'/'.join(b['slot'].split('/')[-2:])}:{b['cls']}"
+            slot = re.sub(r"\{[^}]*\}", "", b["slot"])
+            sig = f"C01:{b['k']}:{re.sub(r'<.*>', '<>', b['c'])}:{'/'.join(slot.split('/')[-2:])}:{b['cls']}"
             desc = (f"{b['c']}: value of class {b['cls']} substituted at free-text slot {b['slot']} of seed {o['seed']} does not survive "
                     f"({b['k']}): value={b['v']!r} X1={cc.short(b['x1'], 300)}")
         elif o["e"] == "Scalar":
@@ -139,7 +147,11 @@ def run(chk, replay=None):
     for c in crashes:
         j = c["job"]
         chk.violation(cc.crash_signature("C01", c), f"{c['kind']} during a codec round trip: {c['report'] or c['stderr_tail'][-300:]} (job {j})", [j])
-    chk.cov["distinct_findings"] = len(seen) + len(crashes)
+    det = cc.determinism(chk, "c01det", [j for j in jobs if j.get("getters")], seeds_path, lines) if not replay else []
+    for dv in det:
+        chk.violation(f"C01:uninitialised:{dv['cls']}:{dv['field']}", dv["what"] + " (a member is read before it is initialised)", [job_by_id[dv["case"]]])
+    chk.cov["determinism_reruns"] = sum(1 for j in jobs if j.get("getters"))
+    chk.cov["distinct_findings"] = len(seen) + len(crashes) + len({(dv["cls"], dv["field"]) for dv in det})
     chk.assumptions += [
         "free-text fields: non-blank strings without white space at the edges (documented trimming is outside the claim); "
         "characters: XML-legal, \\r excluded (XML line-end normalisation)",
